@@ -123,17 +123,64 @@ func (w *world) pickType(depth int) *lang.Type {
 	case k == 7 && len(w.recs) > 0:
 		r := w.recs[w.n(len(w.recs)-1, "whichRec")]
 		if len(r.TParams) > 0 {
-			return lang.TRec(r.Name, w.pickBase())
+			return lang.TRec(r.Name, w.instArgs(r.TParams)...)
 		}
 		return lang.TRec(r.Name)
 	case k == 8 && len(w.unions) > 0:
 		u := w.unions[w.n(len(w.unions)-1, "whichUnion")]
 		if len(u.TParams) > 0 {
-			return lang.TUnion(u.Name, w.pickBase())
+			return lang.TUnion(u.Name, w.instArgs(u.TParams)...)
 		}
 		return lang.TUnion(u.Name)
 	}
 	return lang.TString
+}
+
+// instArgs: one base type per type parameter.
+func (w *world) instArgs(params []string) []*lang.Type {
+	var out []*lang.Type
+	for range params {
+		out = append(out, w.pickBase())
+	}
+	return out
+}
+
+func srcList(ts []*lang.Type) string {
+	var p []string
+	for _, t := range ts {
+		p = append(p, t.Src(0))
+	}
+	return strings.Join(p, ", ")
+}
+
+func goList(ts []*lang.Type) string {
+	var p []string
+	for _, t := range ts {
+		p = append(p, goType(t))
+	}
+	return strings.Join(p, ", ")
+}
+
+// mentionsAll: every type parameter occurs in t.
+func mentionsAll(t *lang.Type, params []string) bool {
+	for _, p := range params {
+		if !mentions(t, p) {
+			return false
+		}
+	}
+	return true
+}
+
+func mentions(t *lang.Type, p string) bool {
+	if t.K == "tvar" && t.Name == p {
+		return true
+	}
+	for _, e := range t.E {
+		if mentions(e, p) {
+			return true
+		}
+	}
+	return false
 }
 
 func (w *world) pickBase() *lang.Type {
@@ -270,16 +317,16 @@ func (w *world) foLit(v lang.Value, t *lang.Type) string {
 		u := w.union(x.Union)
 		if x.Payload == nil {
 			if len(u.TParams) > 0 {
-				return "(" + x.Case + "<" + t.E[0].Src(0) + "> ())"
+				return "(" + x.Case + "<" + srcList(t.E) + "> ())"
 			}
 			return x.Case
 		}
 		c := u.Case(x.Case)
 		targs := ""
-		if len(u.TParams) > 0 && !c.Payload.HasTVar() {
+		if len(u.TParams) > 0 && !mentionsAll(c.Payload, u.TParams) {
 			// the payload does not determine T: the type argument is written explicitly
 			// (Go cannot infer it either; the documents show the same for None<int> ())
-			targs = "<" + t.E[0].Src(0) + ">"
+			targs = "<" + srcList(t.E) + ">"
 		}
 		return "(" + x.Case + targs + " " + w.foLit(x.Payload, subst(c.Payload, u.TParams, t.E)) + ")"
 	}
@@ -318,7 +365,7 @@ func (w *world) goLit(v lang.Value, t *lang.Type) string {
 		u := w.union(x.Union)
 		targs := ""
 		if len(u.TParams) > 0 {
-			targs = "[" + goType(t.E[0]) + "]"
+			targs = "[" + goList(t.E) + "]"
 		}
 		name := "New_" + u.Name + "_" + x.Case
 		if x.Payload == nil {
@@ -375,7 +422,7 @@ func (w *world) goDesc(t *lang.Type, out *strings.Builder, done map[string]bool)
 		u := w.union(t.Name)
 		targs := ""
 		if len(u.TParams) > 0 {
-			targs = "[" + goType(t.E[0]) + "]"
+			targs = "[" + goList(t.E) + "]"
 		}
 		b.WriteString("\tswitch v := x.(type) {\n")
 		for _, c := range u.Cases {
@@ -447,8 +494,15 @@ func genDeclCase(rt *rapid.T) (Case, []string) {
 			if generic {
 				r.TParams = []string{"T"}
 				w.labels["generic record"] = true
+				if w.n(2, "twoTypeParams") == 0 {
+					r.TParams = []string{"L", "R"}
+					w.labels["two type parameters"] = true
+				}
 			}
 			nf := 1 + w.n(3, "nfields")
+			if nf < len(r.TParams) {
+				nf = len(r.TParams) // every type parameter is used by a field
+			}
 			for j := 0; j < nf; j++ {
 				fname := fmt.Sprintf("F%d%c", i, 'a'+j)
 				if w.n(3, "lowerField") == 0 {
@@ -456,8 +510,9 @@ func genDeclCase(rt *rapid.T) (Case, []string) {
 					w.labels["lower-case field"] = true
 				}
 				ft := w.pickType(2)
-				if generic && (j == 0 || w.n(2, "useT") == 0) {
-					ft = []*lang.Type{lang.TVar("T"), lang.TSlice(lang.TVar("T")), lang.TTuple(lang.TInt, lang.TVar("T"))}[w.n(2, "tShape")]
+				if generic && (j < len(r.TParams) || w.n(2, "useT") == 0) {
+					tv := lang.TVar(r.TParams[j%len(r.TParams)])
+					ft = []*lang.Type{tv, lang.TSlice(tv), lang.TTuple(lang.TInt, tv)}[w.n(2, "tShape")]
 				}
 				r.Fields = append(r.Fields, lang.Field{Name: fname, T: ft})
 			}
@@ -477,8 +532,15 @@ func genDeclCase(rt *rapid.T) (Case, []string) {
 			if generic {
 				u.TParams = []string{"T"}
 				w.labels["generic union"] = true
+				if w.n(2, "twoTypeParamsU") == 0 {
+					u.TParams = []string{"L", "R"}
+					w.labels["two type parameters"] = true
+				}
 			}
 			nc := 1 + w.n(3, "ncases")
+			if nc < len(u.TParams) {
+				nc = len(u.TParams)
+			}
 			for j := 0; j < nc; j++ {
 				c := lang.UCase{Name: fmt.Sprintf("C%d%c", i, 'a'+j)}
 				if w.n(5, "caseNameShape") == 0 {
@@ -488,7 +550,11 @@ func genDeclCase(rt *rapid.T) (Case, []string) {
 				if w.n(2, "payload") != 0 {
 					c.Payload = w.pickType(2)
 					if generic && w.n(1, "payloadT") == 0 {
-						c.Payload = []*lang.Type{lang.TVar("T"), lang.TSlice(lang.TVar("T"))}[w.n(1, "tShapeU")]
+						tv := lang.TVar(u.TParams[w.n(len(u.TParams)-1, "whichTP")])
+						c.Payload = []*lang.Type{tv, lang.TSlice(tv)}[w.n(1, "tShapeU")]
+						if len(u.TParams) == 2 && w.n(3, "bothTPs") == 0 {
+							c.Payload = lang.TTuple(lang.TVar("L"), lang.TVar("R"))
+						}
 					}
 				} else {
 					w.labels["case without payload"] = true
@@ -496,8 +562,10 @@ func genDeclCase(rt *rapid.T) (Case, []string) {
 				u.Cases = append(u.Cases, c)
 			}
 			if generic {
-				// make sure T is used
-				u.Cases[0].Payload = lang.TVar("T")
+				// make sure every type parameter is used: case i carries parameter i as it is
+				for i, tp := range u.TParams {
+					u.Cases[i].Payload = lang.TVar(tp)
+				}
 			}
 			w.unions = append(w.unions, u)
 			fo.WriteString(lang.ItemText(&lang.TopItem{Types: []*lang.TypeDecl{{Union: u}}}, lang.Canonical{}) + "\n")
@@ -513,13 +581,13 @@ func genDeclCase(rt *rapid.T) (Case, []string) {
 				r := w.recs[k]
 				t = lang.TRec(r.Name)
 				if len(r.TParams) > 0 {
-					t = lang.TRec(r.Name, w.pickBase())
+					t = lang.TRec(r.Name, w.instArgs(r.TParams)...)
 				}
 			} else {
 				u := w.unions[k-len(w.recs)]
 				t = lang.TUnion(u.Name)
 				if len(u.TParams) > 0 {
-					t = lang.TUnion(u.Name, w.pickBase())
+					t = lang.TUnion(u.Name, w.instArgs(u.TParams)...)
 				}
 			}
 		}
